@@ -303,11 +303,16 @@ def features(tree):
     return f
 
 
-def lazy_key(feats, extra=()):
+def lazy_key(feats, extra=(), pname=None):
     """Which lazily evaluated position the extra calls were hoisted out of."""
     names = {c[0] for c in extra}
     sc = {f[3:] for f in feats if f.startswith("sc:")}
     br = {f[3:] for f in feats if f.startswith("br:")}
+    if pname == "pipeline" and names and names <= sc:
+        # the generator's pass order expands conditional expressions into guarded statements first: a call that
+        # is still made although its operand is not evaluated came out of a short-circuit operand (the same
+        # function may also occur in a conditional branch elsewhere in the program)
+        return "short-circuit-operand-hoisted"
     if names and names <= sc and not names <= br:
         return "short-circuit-operand-hoisted"
     if names and names <= br and not names <= sc:
@@ -449,7 +454,7 @@ def check_tree(tree, valuations, rec, wit, only_pass=None):
                 mech = f"{pname}:transformed-program-fails-where-original-does-not-on-{key}"
                 if "call-in-lazily-evaluated-position" in feats:
                     # something hoisted out of a branch that is not taken is evaluated anyway
-                    mech = f"{pname}:" + lazy_key(feats)
+                    mech = f"{pname}:" + lazy_key(feats, pname=pname)
                 rec.violation(mech,
                               f"{type(ex).__name__}: {ex}\n{s_out}", dict(w, valuation=vi))
                 bad = True
@@ -482,7 +487,7 @@ def check_tree(tree, valuations, rec, wit, only_pass=None):
                 key = "+".join(sorted(feats & {"call-in-lazily-evaluated-position"})) or "plain"
                 mech = f"{pname}:external-calls-changed-on-{key}"
                 if key != "plain" and not missing:
-                    mech = f"{pname}:" + lazy_key(feats, extra)
+                    mech = f"{pname}:" + lazy_key(feats, extra, pname=pname)
                 rec.violation(mech,
                               f"extra calls {extra[:3]}, missing calls {missing[:3]}\ninput:\n{s_in}output:\n{s_out}",
                               dict(w, valuation=vi))
